@@ -13,6 +13,9 @@ RULE_DD = ("cases = (generated instance, diagram implementation, history of 3..7
 REAL_DD = ["ddo::Mdd<LEL>::compile, Mdd<FRONTIER>::compile, Pooled::compile, drain_cutset, best_* accessors", "ddo::EmptyCache, EmptyDominanceChecker (compiled 'in isolation')"]
 STUB_DD = ["the solver loop (operations are issued by the harness)", "TimeBudget -> SimCutoff", "user model -> family T"]
 
+ALL_EXAMPLES = ["knapsack", "misp", "max2sat", "mcp", "lcs", "golomb", "sop", "tsptw", "srflp", "talentsched", "psp", "alp"]
+EXAMPLES_READY = ["knapsack", "misp"]
+
 def A(arm, quick, thorough, **kw):
     d = {"arm": arm, "quick": quick, "thorough": thorough}
     d.update(kw)
@@ -64,6 +67,12 @@ PROPS = {
     "C15": {"level": "exploration", "arms": [A("seq-longarc", 8000, 400000), A("par-longarc", 4000, 200000), A("seq-longarc-plain", 4000, 200000)],
             "probes": ["branched(explored>=2)", "probe:>=2_workers_compiling_at_once"],
             "rule": RULE_SOLVER + "; depth-free table models with random irrelevance patterns (an irrelevant (layer, state) has the single neutral decision: stay, cost 0); pooled solvers vs plain-diagram solvers vs reference"},
+    "C16": {"level": "exploration", "arms": [A("ex-" + n, 500, 20000, samples=1) for n in EXAMPLES_READY],
+            "probes": ["example_runs:" + n for n in EXAMPLES_READY] + ["probe:>=2_workers_compiling_at_once", "width:default", "threads:4"],
+            "rule": "one case = (random small instance written in the example's own file format, width in {1,2,3,default}, threads in {1,2,4}, scheduler seed); the REAL example program (its main(), CLI parsing, reader, model, solver wiring, printing; built from /repo/ddo/examples/<name>/ by harness/exrun/build.rs) runs as a child process under the deterministic scheduler and the number on its `Objective:` line is compared with an independent brute-force enumeration; non-trivial: every case counts; distinct = distinct (instance file, width, threads, schedule trace)",
+            "real": ["the example programs themselves: main(), clap CLI, instance readers, DP models, relaxations, rankings, dominance rules, width heuristics (harness/exrun builds them from /repo's working tree)", "ddo solvers, diagrams, fringes, cache, dominance stores; real OS threads under engine S (lock/condvar/thread hooks)"],
+            "stub": ["TimeBudget is never armed (no time limit is passed)", "no yield points inside Cache / Dominance / Cutoff calls for the examples (they use ddo's own objects directly): scheduling points are the mutex, condvar and thread hooks only"],
+            "extra_coverage": {"examples_covered": EXAMPLES_READY, "examples_not_covered": [n for n in ALL_EXAMPLES if n not in EXAMPLES_READY]}},
     "C18": {"level": "exploration", "arms": [A("store-history", 60000, 3000000), A("dom-history", 30000, 1200000), A("ext:miri-cache", 16, 640, reps=20), A("ext:miri-dom", 16, 640, reps=20)],
             "probes": ["probe:get_hit", "cache_clear_layers", "cache_clears", "probe:dominated_verdict", "probe:overlapping_updates_same_key", "probe:get_overlapping_update", "probe:overlapping_check_and_insert_same_key"],
             "real": ["ddo::SimpleCache, ddo::SimpleDominanceChecker", "dashmap 5.5 (shard RwLocks) and parking_lot_core, interpreted by Miri", "std::thread (Miri's seeded scheduler decides every pre-emption)"],
